@@ -5,6 +5,7 @@ From Coq Require Import PrimFloat.
 Import ListNotations.
 From DD Require Import Base.Sx Base.PyStr Base.Value Diff.Tree Diff.DiffModel Diff.DiffShow Hash.HashModel
   DiffIO.DiffIOModel DiffIO.DiffIOShow Dist.DistModel Dist.DistShow Dist.DistDiffModel Dist.DistIOModel.
+From DD Require Import Dist.DistIOProofs.
 Local Open Scope string_scope.
 
 (* DeepDiff(t1, t2, ignore_order=True, report_repetition=rep, cutoff_distance_for_pairs=cutoff,
@@ -13,7 +14,30 @@ Local Open Scope string_scope.
    the add/remove rewrite has happened).
    Result: the distance, the operation count, the two item lengths, the type-change guard, the
    no-repeated-items guard on t1, and (pairing call without report_repetition) the hypothesis [mutual_ok] of
-   C19_pair_distance_range_default on the nested run's levels. *)
+   C19_pair_distance_range_default on the nested run's levels, and [pairs_unrep] on the recorded pairings. *)
+(* the value at a path of t1 (dict keys by ==) *)
+Fixpoint sub_at (v : value) (p : path) : option value :=
+  match p with
+  | [] => Some v
+  | PIdx i :: q =>
+      match v with
+      | VList xs | VTuple xs => match nth_error xs i with Some x => sub_at x q | None => None end
+      | _ => None
+      end
+  | PKey k :: q =>
+      match v with
+      | VDict kvs => match find (fun kv => py_eq (fst kv) k) kvs with Some kv => sub_at (snd kv) q | None => None end
+      | _ => None
+      end
+  end.
+(* pairs_unrep (the hypothesis of C19_deep_distance_range_ignore_order_pairs) on the recorded pairings: every pair of
+   every recorded level points at a removed item whose hash occurs once among the items of that level *)
+Definition pairs_unrep_obs (c : cfg) (rep : bool) (ps : list (path * list (nat * nat))) (t1 : value) : bool :=
+  forallb (fun pp => match sub_at t1 (fst pp) with
+                     | Some (VList xs) | Some (VTuple xs) => level_ok hexhash c rep xs (snd pp)
+                     | _ => true
+                     end) ps.
+
 Definition dist_io_case (post : bool) (c : cfg) (rep : bool) (ps : list (path * list (nat * nat)))
            (inc : list (value * value * bool)) (cutoff : float) (t1 t2 : value) : sx :=
   let r0 := diff_io hexhash (fun _ _ => []) no_paths no_paths c rep (tbl_pairs ps) t1 t2 [] [] in
@@ -23,4 +47,5 @@ Definition dist_io_case (post : bool) (c : cfg) (rep : bool) (ps : list (path * 
       sx_nat (count t1); sx_nat (count t2);
       sx_bool (tcs_ok (tbl_incl inc) (fst r0));
       sx_bool (uniq_items hexhash c rep t1);
-      sx_bool (if post && negb rep then mutual_ok (fst r0) else true)].
+      sx_bool (if negb rep then mutual_ok (fst r0) else true);
+      sx_bool (pairs_unrep_obs c rep ps t1)].
